@@ -242,6 +242,18 @@ def linkFile (w : World) (p first : Path) : Option World :=
     | none, some (.file fm) => some { w with dst := d.set p (.file fm) }
     | _, _ => none
 
+/-- update of a later member of a source link group (`-H`): whatever non-directory is at the path is
+    replaced by a name of the first member's destination inode (src/sync/transfer.rs
+    `transfer_link_member`, `is_update`: same inode → nothing to do, else remove + link) -/
+def relinkFile (w : World) (p first : Path) : Option World :=
+  match mkdirAll w.dst (parentOf p) with
+  | none => none
+  | some d =>
+    match d.get? p, d.get? first with
+    | some .dir, _ => none
+    | _, some (.file fm) => some { w with dst := d.set p (.file fm) }
+    | _, _ => none
+
 /-- what one task does to the world when run to completion; `none` = the task fails -/
 def perform (cfg : Cfg) (w : World) (t : Task) : Option World :=
   match t.act with
@@ -261,9 +273,9 @@ def perform (cfg : Cfg) (w : World) (t : Task) : Option World :=
       | .dir => (mkdirAll w.dst t.rel).map fun d => { w with dst := d }
       | .symlink text => writeSymlink w t.rel text
       | .file m nlink =>
-        if act = .create && cfg.hardlinks && decide (1 < nlink) then
+        if (act = .create || act = .update) && cfg.hardlinks && decide (1 < nlink) then
           match w.linkMap.find? (·.1 == m.ino) with
-          | some (_, first, _) => linkFile w t.rel first
+          | some (_, first, _) => if act = .create then linkFile w t.rel first else relinkFile w t.rel first
           | none =>
             (writeFile cfg w t.rel m).map fun w' =>
               let ino := match w'.dst.get? t.rel with | some (.file f) => f.ino | _ => 0
